@@ -44,6 +44,26 @@
                 if let (Ok(sa), Ok(sb)) = (&a, &b) {
                     if (sa.value() - sb.value()).abs() > 1e-6 * (1.0 + sb.value().abs()) { bad = true; detail = format!("tableau optimum {} vs microlp optimum {}", sa.value(), sb.value()); }
                 }
+                // the point mapped back from the standard form (as_lp_solution) is a feasible point of the ORIGINAL model with the reported value
+                if let Ok(sa) = &a {
+                    let mut xs = [f64::NAN; 2];
+                    for asg in sa.assignment().iter() { if asg.name == "x" { xs[0] = asg.value; } if asg.name == "y" { xs[1] = asg.value; } }
+                    let tol = 1e-6;
+                    let in_dom = |t: &VariableType, v: f64| match t { VariableType::Real(lo, hi) => v >= *lo - tol && v <= *hi + tol, VariableType::NonNegativeReal(lo, hi) => v >= -tol && v >= *lo - tol && v <= *hi + tol, _ => true };
+                    let mut why = String::new();
+                    if xs[0].is_nan() || xs[1].is_nan() { why = format!("no value for x or y in {:?}", sa.assignment()); }
+                    else if !in_dom(sx, xs[0]) || !in_dom(sy, xs[1]) { why = format!("point ({}, {}) is outside the declared ranges", xs[0], xs[1]); }
+                    else {
+                        for (c, cmp, r) in rows {
+                            let l = c[0] * xs[0] + c[1] * xs[1];
+                            let ok = match cmp { Comparison::LessOrEqual | Comparison::Less => l <= *r + tol, Comparison::GreaterOrEqual | Comparison::Greater => l >= *r - tol, Comparison::Equal => (l - *r).abs() <= tol };
+                            if !ok { why = format!("point ({}, {}) violates the row {:?} {:?} {}", xs[0], xs[1], c, cmp, r); break; }
+                        }
+                        let ov = obj[0] * xs[0] + obj[1] * xs[1] + off;
+                        if why.is_empty() && (ov - sa.value()).abs() > 1e-6 * (1.0 + ov.abs()) { why = format!("objective at the returned point ({}, {}) is {} but the reported value is {}", xs[0], xs[1], ov, sa.value()); }
+                    }
+                    if !why.is_empty() && !bad { bad = true; detail = why; }
+                }
                 if bad && fails < 6 {
                     fails += 1;
                     println!("WITNESS-FAIL {{\"fn\": \"to_standard_form\", \"clause\": \"C13: the standard form has the same verdict and optimum as the model\", \"x\": \"{:?}\", \"y\": \"{:?}\", \"rows\": \"{:?}\", \"objective\": \"{:?} {:?} + {}\", \"tableau_path\": \"{}\", \"microlp_path\": \"{}\", \"detail\": \"{}\"}}", sx, sy, rows, dir, obj, off, va, vb, detail);
